@@ -1,6 +1,7 @@
 package main
 
 import (
+	"bytes"
 	"fmt"
 	"math"
 	"os"
@@ -287,7 +288,7 @@ func runFuzz(o *Options, res *Result, rng *RNG, n int, prop string) {
 		res.Hist("fuzz:render-" + r.Obs.ErrClass())
 		if r.Obs.Panic == "" && !r.Obs.Hang {
 			// and once more on a context that was used and reset (contexts are pooled in production)
-			if w := warmRun(key, data); w.Panic != "" || w.Hang {
+			if w := warmRun(key, data, i%4); w.Panic != "" || w.Hang {
 				r.Obs = w
 				res.Hist("fuzz:warm-" + w.ErrClass())
 			}
@@ -411,7 +412,7 @@ func runEdgeTemplates(res *Result) {
 		if po.ErrClass() != "OK" {
 			continue
 		}
-		for _, obs := range []Obs{renderRun(key, g.data, 0, 0).Obs, warmRun(key, g.data)} {
+		for _, obs := range []Obs{renderRun(key, g.data, 0, 0).Obs, warmRun(key, g.data, 0), warmRun(key, g.data, 2), thenRead(key, g.data)} {
 			res.Hist("edges:render-" + obs.ErrClass())
 			if (obs.Panic != "" && obs.InRepo()) || obs.Hang {
 				res.OracleFails++
@@ -440,4 +441,27 @@ func runC13(o *Options) *Result {
 	res.Rule += " || sweep: every registered built-in modifier (and alias) x 33 carrier values of every kind (nil, ints, NaN/Inf/huge floats, numeric and non-numeric strings, bytes, bools, time, structs, slices) x 37 argument tuples (quick: a fifth of the product; thorough: all), pipe and call form, every built-in condition helper x every value; fuzz: mutated repository templates and generated templates that still parse, rendered against generated data; oracle: recovered panic or 1.5 s watchdog; distinct by template text"
 	res.WriteReplays(o.Verif+"/evidence/replays", "C13")
 	return res
+}
+
+// thenRead renders the template and then, on the same context and without a Reset, a template that
+// reads, compares and ranges over every variable name the edge templates assign: whatever an
+// (aborted) render left in the context, the next render does not panic on it.
+var thenReadKey string
+
+func thenRead(key string, data *DataEnv) Obs {
+	if thenReadKey == "" {
+		src := ""
+		for _, v := range []string{"v", "h", "x", "z", "c", "q", "ok", "i", "k"} {
+			src += fmt.Sprintf(`{%%= %s %%}{%%= %s.Cost %%}{%% if %s == "x" %%}a{%% endif %%}{%% if %s.Cost > 1 %%}b{%% endif %%}{%% for _, e := range %s %%}c{%% endfor %%}{%%= %s|default("d") %%}`, v, v, v, v, v, v)
+		}
+		thenReadKey, _, _ = parseDump([]byte(src), false)
+	}
+	return guarded(10*time.Second, func() ([]byte, error) {
+		ctx := dyntpl.NewCtx()
+		data.Apply(ctx)
+		var first, second bytes.Buffer
+		_ = dyntpl.Write(&first, key, ctx)
+		err := dyntpl.Write(&second, thenReadKey, ctx)
+		return second.Bytes(), err
+	})
 }
